@@ -3,6 +3,20 @@ package symgo
 // Environment stubs specific to the target module.
 
 func init() {
+	// verifrt.DelayBound(n) / a harness function verifC10DelayBound(n): see sched.go chooseG
+	setDelay := func(m *Machine, fr *Frame, a []Value) Value {
+		n := int(m.concInt(a[0], "delay bound"))
+		if n < 0 {
+			delete(m.userData, "sched.delaybound")
+			return nil
+		}
+		m.userData["sched.delaybound"] = n
+		m.userData["sched.delays"] = 0
+		return nil
+	}
+	externals["github.com/spikeekips/mitum/util/verifrt.DelayBound"] = setDelay
+	externals["github.com/spikeekips/mitum/isaac/operation.verifC10DelayBound"] = setDelay
+
 	// random shard seed of util.ShardedMap: a fixed concrete value (the shard a key lands in is
 	// then one sample; properties are stated over keys, not shards)
 	externals["github.com/spikeekips/mitum/util.newDjb2Seed"] = func(m *Machine, fr *Frame, a []Value) Value {
